@@ -575,7 +575,22 @@ impl<'i> RecipeCollector<'i, '_> {
                 };
                 self.ctx
                     .warn(warning!(format!("Ignoring {c} in text mode"), label!(span)));
-                s.push_str(&self.input[span.range()]);
+                // keep the source of the component, but like the text around
+                // it, without the comments
+                let raw = &self.input[span.range()];
+                let mut cursor = crate::lexer::Cursor::new(raw);
+                let mut pos = 0;
+                while pos < raw.len() {
+                    let token = cursor.advance_token();
+                    let end = pos + token.len as usize;
+                    if !matches!(
+                        token.kind,
+                        crate::lexer::TokenKind::BlockComment | crate::lexer::TokenKind::LineComment
+                    ) {
+                        s.push_str(&raw[pos..end]);
+                    }
+                    pos = end;
+                }
             }
             _ => panic!("Unexpected event in text block: {ev:?}"),
         }
